@@ -1,11 +1,13 @@
 """C13 -- results are local: a pixel depends on its neighbourhood, not on its position.
 
-Theorems: Props/C13.v (locality of the cost SPEC, of the sad/ssd MODEL, of the criteria flags, of
-        winner-takes-all, refinement, median and bilateral filters, cross-checking, of every pipeline of these steps;
-        crop invariance).  The per-step models are tied to the code by the correspondences of
-        C02/C03/C04/C06/C07/C10; nothing new is hand-modelled here except the glue Model/Local.v.
+Theorems: Props/C13.v (locality of the cost SPEC, of the sad/ssd/census/zncc MODEL, of the criteria flags, of the
+        cbca SPEC and MODEL (through C11's model = spec), of winner-takes-all, refinement, median and bilateral
+        filters, cross-checking, of every pipeline of these steps: C13_pipeline_local; crop invariance).  The
+        per-step models are tied to the code by the correspondences of C02/C03/C04/C06/C07/C10/C11; nothing new is
+        hand-modelled here except the glue Model/Local.v.
 T-corr: the cone / margin of each pipeline is computed by the EXTRACTED [kpipe_rad] (the radii of the
-        theorem, C13_radii_agree) and decides which pixels of a crop are compared.
+        theorem, C13_radii_agree; cbca: arms of max(cbca_distance - 1, 1) pixels, + 1 for the 3x3 median
+        pre-filter or the window offset) and decides which pixels of a crop are compared.
 Search: impl-vs-impl metamorphic runs on the real code (public entry point pandora.run, compiled
         kernels): a whole scene against crops at random offsets / sizes (odd and even offsets), and
         against the vertically flipped scene; disparity maps and validity masks of the left AND right
@@ -33,10 +35,11 @@ RULE = ("a case = one scene (24-40 x 40-64 pair, integer radiometry inside the e
         "non-trivial when the compared interior holds >= 20 pixels, >= 2 distinct disparities and (with cross-checking) "
         ">= 1 flagged pixel; distinct by (pipeline, scene digest, crop)")
 ASSUMES = [
-    "the per-step models are those of C02/C03/C04/C06/C07/C10 (their correspondences tie them to the code); the "
-    "theorem for pipelines covers sad/ssd + validity mask, wta, vfit/quadratic, median, bilateral, cross-checking "
-    "(C13_pipeline_local_partial); census/zncc are covered at spec level; cbca and the vertical flip are "
-    "covered by these metamorphic runs only",
+    "the per-step models are those of C02/C03/C04/C06/C07/C10/C11 (their correspondences tie them to the code); the "
+    "theorem for pipelines (C13_pipeline_local) covers sad/ssd/census/zncc + validity mask, cbca, wta, vfit/quadratic, "
+    "median, bilateral, cross-checking; zncc: the model holds the exact integer triple (cov, varL, varR), the float "
+    "evaluation of cov/sqrt(varL varR) is any function of it; the vertical flip is covered by these metamorphic "
+    "runs only",
     "side condition of cross-checking locality (px_ok): a still-valid pixel holds a disparity that rounds into its "
     "interval; checked on the final maps of every run",
     "exact domain (DESIGN 2.1 a): radiometry bounded so that every window sum of the measure is exact in float32; "
@@ -384,6 +387,11 @@ def run(ctx):
     if D != [2, 6, 6] or M != [2, 6, 6]:
         ctx.mismatch("radii_example", "window 3, [-2,1], mc wta refine median3 xcheck", [D, M], [[2, 6, 6], [2, 6, 6]])
     ctx.stats["example_radii"] = {"data_cone": D, "margin": M}
+    # with cbca_distance 3 (arms of at most 2 pixels) and median 5: rows 1 + 2 + 2, columns 5 + 2 + 2
+    D2, M2 = model.call(1, [3, -2, 1, [[0, 0], [1, 3], [2, 0], [3, 5], [4, 0]]])
+    if D2 != [5, 9, 9] or M2 != [5, 9, 9]:
+        ctx.mismatch("radii_example_cbca", "window 3, [-2,1], mc cbca3 wta median5 xcheck", [D2, M2], [[5, 9, 9], [5, 9, 9]])
+    ctx.stats["example_radii_cbca"] = {"data_cone": D2, "margin": M2}
     if ctx.replay_case is not None:
         case = dict(ctx.replay_case)
         if "crop" in case:          # a failing crop: replay that crop only
